@@ -123,6 +123,7 @@ func Restore(layers []Layer, capture *sqlite.CaptureStmts) (*Restored, error) {
 			}
 		}
 	}
+	l.Life = 2
 	return &Restored{Log: l, Vault: v, Cap: capture, Reg: reg}, nil
 }
 
@@ -148,7 +149,8 @@ type Recovery struct {
 func (r *Restored) Recover(id uuid.UUID, watchdog time.Duration, opts ...coercion.Option) *Recovery {
 	ctx := context.Background()
 	out := &Recovery{}
-	ws, err := coercion.New(ctx, r.Reg, r.Vault, opts...)
+	// through a recording vault: the writes of the recovery are events of the log too
+	ws, err := coercion.New(ctx, r.Reg, rec.New(r.Vault, r.Log, 1, 0), opts...)
 	if err != nil {
 		out.NewErr = err.Error()
 		return out
